@@ -172,6 +172,9 @@ CREATORS = {
     "repeat_value": lambda x, y, a: reactivex.repeat_value(7, 2),
     "return_value": lambda x, y, a: reactivex.return_value(7),
     "timer": lambda x, y, a: reactivex.timer(2),
+    "generate_with_relative_time": lambda x, y, a: reactivex.generate_with_relative_time(0, lambda v: v < 3, lambda v: v + 1, lambda v: 1 + a.g[0]),
+    "timer_periodic": lambda x, y, a: reactivex.timer(1, 2).pipe(ops.take(3)),
+    "interval": lambda x, y, a: reactivex.interval(2).pipe(ops.take(2)),
     "for_in": lambda x, y, a: reactivex.for_in([0, 1], lambda i: (x, y)[i]),
 }
 KNOWN_REGION = {}
